@@ -27,6 +27,29 @@ def programs():
               'jall_chain_inbound', 'jall_impossible_route',
               'two_joins_same_inbound'):
         P[k] = J[k]
+    # programs in which one task specification is used several times in a
+    # run (retry attempts, items, loop iterations, two calls of one child):
+    # a specification object changed by its use shows as a difference
+    # between the cached and the evicted mode
+    T, direct = wfgen.T, wfgen.direct
+    P['reuse_retry'] = direct(
+        {'a': T(retry={'count': 2, 'delay': 0}, publish={'v': ['inc', 'v']},
+                **{'publish-on-error': {'e': ['inc', 'e']},
+                   'on-success': ['b'], 'on-error': ['b']}),
+         'b': T(publish={'w': ['var', 'v']})},
+        input={'v': 0, 'e': 0}, output={'v': ['var', 'v'], 'e': ['var', 'e']})
+    P['reuse_items'] = direct(
+        {'a': {'with-items': 'i in <% $.xs %>', 'publish': {'r': ['result']},
+               'on-success': ['b']}, 'b': T()},
+        input={'xs': ['i0', 'i1']}, output={'r': ['var', 'r']})
+    leaf = direct({'s1': T(key='s1', publish={'k2': ['inc', 'k']})},
+                  input={'k': 0}, output={'k2': ['var', 'k2']})
+    P['reuse_child'] = direct(
+        {'a': T(workflow='sub', publish={'ra': ['result']},
+                **{'wf-input': {'k': ['lit', 1]}, 'on-success': ['b']}),
+         'b': T(workflow='sub', publish={'rb': ['result']},
+                **{'wf-input': {'k': ['lit', 5]}})},
+        subs={'sub': leaf}, output={'ra': ['var', 'ra'], 'rb': ['var', 'rb']})
     D = wfgen.dataflow_shapes()
     for k in ('fresh_b_vs_inherited', 'fresh_c_vs_inherited',
               'deep_fresh_c', 'disjoint_vars', 'three_branches'):
@@ -99,8 +122,17 @@ def scenarios(tier):
             if not quick:
                 pick.append({k: ['E'] for k in keys})
             assigns = pick[:(3 if quick else 64)]
+        if name == 'reuse_retry':
+            assigns = [{'a': ['E', 'E', 'S'], 'b': ['S']},
+                       {'a': ['E', 'S'], 'b': ['S']},
+                       {'a': ['E', 'E', 'E'], 'b': ['S']}]
+        if name == 'reuse_items':
+            assigns = [{'i0': ['S'], 'i1': ['S'], 'b': ['S']},
+                       {'i0': ['E'], 'i1': ['S'], 'b': ['S']}]
+        if name == 'reuse_child':
+            assigns = [{'s1': ['S', 'S']}, {'s1': ['S', 'E']}]
         for ai, res in enumerate(assigns):
-            tag = ''.join(res[k][0] for k in sorted(res))
+            tag = ''.join(''.join(res[k]) for k in sorted(res))
             for cc in (False, True):
                 if quick and cc and n > 4:
                     continue
